@@ -34,6 +34,9 @@ CHECKS["C11"] = {
             {"run": "TestVfC11Match", "quick": 20000, "thorough": 14117650, "timeout_thorough": 3000, "shards_quick": 4, "shards_thorough": 16,
              "timeout_thorough": 2400},
         ]},
+        {"engine": "F", "pkg": "internal/domain_matcher", "tests": [
+            {"run": "FuzzVfC11Match", "fuzz": True, "quick": 0, "thorough": 240, "timeout_thorough": 900, "exclusive": True},
+        ]},
     ],
     "assumptions": [
         "entries are what a domain file line can carry: no '.', '#', CR, LF or backslash inside a label; first/last octet of a line not trimmed by bytes.TrimSpace; entry names <= 253 octets; no empty expression",
@@ -53,6 +56,9 @@ CHECKS["C02"] = {
             {"run": "TestVfC02RoundTrip", "quick": 24000, "thorough": 3453240, "timeout_thorough": 3000, "shards_quick": 8, "shards_thorough": 16,
              "timeout_thorough": 3000},
         ]},
+        {"engine": "F", "pkg": "internal/dnsmsg", "tests": [
+            {"run": "FuzzVfC02RoundTrip", "fuzz": True, "quick": 0, "thorough": 240, "timeout_thorough": 900, "exclusive": True},
+        ]},
     ],
     "assumptions": [
         "messages are built by the harness encoder from a model; names <= 255 octets, labels 1..63 octets, at most one OPT",
@@ -71,6 +77,9 @@ CHECKS["C09"] = {
         {"engine": "P", "pkg": "internal/dnsmsg", "tests": [
             {"run": "TestVfC09PackLimit", "quick": 16000, "thorough": 3934430, "timeout_thorough": 3000, "shards_quick": 8, "shards_thorough": 16,
              "timeout_thorough": 3000},
+        ]},
+        {"engine": "F", "pkg": "internal/dnsmsg", "tests": [
+            {"run": "FuzzVfC09PackLimit", "fuzz": True, "quick": 0, "thorough": 240, "timeout_thorough": 900, "exclusive": True},
         ]},
         {"engine": "P", "pkg": "app/router", "tests": [
             {"run": "TestVfC09StreamCeiling", "quick": 4000, "thorough": 600000, "shards_quick": 8, "shards_thorough": 16, "timeout_thorough": 3000},
